@@ -208,11 +208,12 @@ var genInts = []int64{0, 1, -1, 42, 9007199254740993, math.MaxInt64, math.MinInt
 var genFloats = []float64{0.5, math.Copysign(0, -1), 1e308, math.NaN(), math.Inf(1), math.Inf(-1), -2.25, 3}
 
 type storeGenOpts struct {
-	cleanNames  bool // only representable names/keys/values (for formats without validation)
-	noSeparator bool // label values without whitespace or separators
-	utf8Only    bool // no invalid UTF-8 in label or text values (JSON cannot carry them)
-	maxMetrics  int
+	cleanNames      bool // only representable names/keys/values (for formats without validation)
+	noSeparator     bool // label values without whitespace or separators
+	utf8Only        bool // no invalid UTF-8 in label or text values (JSON cannot carry them)
+	maxMetrics      int
 	unsortedBuckets bool // histogram ranges sometimes in another order than ascending
+	twins           bool // sometimes two metrics of one program share a name and differ in value type
 }
 
 func genStore(r *rng, o storeGenOpts) []sMetric {
@@ -365,6 +366,31 @@ func genStore(r *rng, o storeGenOpts) []sMetric {
 			m.lsets = append(m.lsets, l)
 		}
 		ms = append(ms, m)
+	}
+	if o.twins && len(ms) > 0 && r.chance(1, 3) {
+		// what a program leaves behind when a declaration's value type changes between loads:
+		// two metrics with one name and program, told apart by type and source
+		i := r.intn(len(ms))
+		if (ms[i].typ == metrics.Int || ms[i].typ == metrics.Float) && (ms[i].kind == metrics.Counter || ms[i].kind == metrics.Gauge) {
+			tw := ms[i]
+			tw.source = ms[i].source + "9"
+			tw.lsets = nil
+			for _, l := range ms[i].lsets {
+				nl := l
+				if ms[i].typ == metrics.Int {
+					nl.kind, nl.f = 'f', float64(l.i%1000)+0.5
+				} else {
+					nl.kind, nl.i = 'i', 7
+				}
+				tw.lsets = append(tw.lsets, nl)
+			}
+			if ms[i].typ == metrics.Int {
+				tw.typ = metrics.Float
+			} else {
+				tw.typ = metrics.Int
+			}
+			ms = append(ms[:i:i], append([]sMetric{tw}, ms[i:]...)...)
+		}
 	}
 	return ms
 }
